@@ -239,6 +239,22 @@ def _pipeline(cfg, nprocs, stages='all'):
             if not okp:
                 viol.append('wiring:poloidal')
             out['pol'] = sim.block_of(f)
+            # the same potential splines reused for a further step (gridStep_SplinesUnchanged)
+            before = f.getAllData().copy()
+            polAdv.gridStep_SplinesUnchanged(f, -0.3 * dt)
+            okp = True
+            for j in range(before.shape[1]):
+                J = int(lpo.starts[1]) + j
+                sp = Spline2D(spl[1], spl[0])
+                itp2.compute_interpolant(np.ascontiguousarray(PHI[:, :, J].T), sp)
+                for i in range(before.shape[0]):
+                    v = eta[3][int(lpo.starts[0]) + i]
+                    e = before[i, j].copy()
+                    polS.step(e, -0.3 * dt, sp, v)
+                    okp = okp and close(f.getAllData()[i, j], e)
+            if not okp:
+                viol.append('wiring:poloidal-splines-unchanged')
+            out['pol2'] = sim.block_of(f)
             f.setLayout('v_parallel')
             phi.setLayout('mode_solve')
         else:
